@@ -352,7 +352,7 @@ def run(prop, tier, seed, scratch, build):
         if reported >= 2:
             break
     for h in extra_hits:
-        out.violation(h)
+        out.violation(h, nofail=(h.get("kind") == "no-failing-input-found"))
         reported += 1
     if reported == 0 and (corr_hits or broken):
         # the proof or the tie is broken: search harder for a concrete failing input
